@@ -92,6 +92,7 @@ Record tx_valid (sF : est) (evs : list event) (txs : txl) : Prop := {
   (* nobody is infected twice; times never decrease; every chain of sources ends at an initial node *)
   tv_once : NoDup (map tx_tgt txs);
   tv_sorted : forall a x b, txs = a ++ x :: b -> forall y, In y a -> tx_time y <= tx_time x;
+  tv_after : forall x, In x txs -> tmin <= tx_time x;
   tv_rooted : forall t s v, In (t, s, v) txs -> rooted txs v /\ exists r, In r i0 /\ rooted txs r
 }.
 
@@ -187,6 +188,9 @@ Proof.
   - unfold tx_tgt. rewrite map_rev. apply NoDup_rev. exact Hnd.
   - intros a x b E y Hy. apply Split in E.
     destruct (elock_tx_sorted _ _ _ _ HL H00) as [_ Hso]. apply (Hso (rev b) x (rev a) E y). apply in_rev in Hy. exact Hy.
+  - intros [[t s] v] Hin. apply in_rev in Hin. cbn [tx_time fst].
+    destruct (elock_times g tmin tmax ST00 ROW00 H00 eq_refl _ _ _ _ HL) as [_ [Hge _]].
+    apply (Hge (t, v, stI)). apply (elock_tx_ev g tmax ST00 ROW00 _ _ _ _ HL t s v Hin).
   - intros t s v Hin. apply in_rev in Hin.
     assert (Hroot : rooted (rev (tlog sF)) v).
     { apply (rooted_incl (tlog sF)); [intros x Hx; apply in_rev; rewrite rev_involutive; exact Hx|].
